@@ -123,8 +123,11 @@ def check_program(ctx, p, r, jobs, tier, ajobs, sizes):
             sg, sn = run_summary(rg), run_summary(rn)
             if sg != sn:
                 if g['resume'] and is_prefix(rn['events'], rg['events']) and \
-                        (rn['trap'] == 18 or rn['exc'] == 'Trapped'):
-                    # the permitted exception: RESUME needs the debug section
+                        (rn['trap'] is not None or rn['exc'] == 'Trapped'):
+                    # the permitted exception: RESUME needs the debug section.  Without it
+                    # the run stops at the failing statement: CANNOT_RESUME from a RESUME
+                    # statement, or - in ON ERROR RESUME NEXT mode, since the fix commit
+                    # for D20 - the original error is reported
                     ctx.bump('resume-exception')
                 else:
                     kind = 'events' if rg['events'] != rn['events'] else 'outcome'
